@@ -16,6 +16,8 @@ package main
 // execution for a given tree, and replay files carry explicit plans.
 
 import (
+	_ "embed"
+	"encoding/json"
 	"go/ast"
 	"go/parser"
 	"go/token"
@@ -27,17 +29,73 @@ import (
 	"strings"
 )
 
+// strClass / intClass: one class of mined literals; novel = those that do not
+// occur in the pinned tree (dict_baseline.json, recorded from the repository at
+// the commit this harness was built against). A literal that is new in the
+// tree under test is where a special case announces itself, so the pickers
+// prefer novel entries when there are any.
+type strClass struct{ all, novel []string }
+type intClass struct{ all, novel []int }
+
+func (c strClass) pick(r *R, p float64) (string, bool) {
+	if len(c.all) == 0 || !r.P(p) {
+		return "", false
+	}
+	if len(c.novel) > 0 && r.P(0.6) {
+		return c.novel[r.Intn(len(c.novel))], true
+	}
+	return c.all[r.Intn(len(c.all))], true
+}
+
+func (c intClass) pick(r *R, p float64) (int, bool) {
+	if len(c.all) == 0 || !r.P(p) {
+		return 0, false
+	}
+	if len(c.novel) > 0 && r.P(0.6) {
+		return c.novel[r.Intn(len(c.novel))], true
+	}
+	return c.all[r.Intn(len(c.all))], true
+}
+
+// at: deterministic selection (for the probe suites): novel entries first.
+func (c strClass) at(k int) string {
+	if len(c.novel) > 0 && k%2 == 0 {
+		return c.novel[(k/2)%len(c.novel)]
+	}
+	return c.all[k%len(c.all)]
+}
+
+func (c intClass) at(k int) int {
+	if len(c.novel) > 0 && k%2 == 0 {
+		return c.novel[(k/2)%len(c.novel)]
+	}
+	return c.all[k%len(c.all)]
+}
+
 type dictionary struct {
-	origins []string // contain "://"
-	hosts   []string // look like a host (domain, IPv4, bracketed IPv6)
-	schemes []string // look like a URI scheme
-	tokens  []string // RFC 9110 tokens (method / header-name shaped)
-	any     []string // every printable string literal up to 300 bytes
-	ports   []int    // 1..65535 (each mined integer n contributes n-1, n, n+1)
-	status  []int    // 200..299
-	maxAge  []int    // -1..86400
-	sizes   []int    // 2..600: list lengths, repetition counts
-	files   int
+	origins   strClass // contain "://"
+	hosts     strClass // look like a host (domain, IPv4, bracketed IPv6; a leading dot is dropped)
+	schemes   strClass // look like a URI scheme
+	tokens    strClass // RFC 9110 tokens (method / header-name shaped)
+	any       strClass // every printable string literal up to 300 bytes
+	ports     intClass // 1..65535 (each mined integer n contributes n-1, n, n+1; constant expressions are folded)
+	status    intClass // 200..299
+	maxAge    intClass // -1..86400
+	sizes     intClass // 2..1200: list lengths, repetition counts
+	badMaxAge intClass // outside -1..86400 (documented as prohibited)
+	badStatus intClass // outside 200..299 (documented as prohibited)
+	files     int
+
+	rawStrings []string
+	rawInts    []int
+}
+
+//go:embed dict_baseline.json
+var dictBaselineJSON []byte
+
+type dictBaseline struct {
+	Strings []string `json:"strings"`
+	Ints    []int    `json:"ints"`
 }
 
 var dict dictionary
@@ -156,6 +214,12 @@ func loadDict() {
 			if f, ok := n.(*ast.Field); ok && f != nil && f.Tag != nil {
 				skip[f.Tag] = true // struct tags are not data
 			}
+			if be, ok := n.(*ast.BinaryExpr); ok {
+				// constant expressions over integer literals (24 * 60 * 60, 1 << 16): the value counts
+				if v, ok := foldInt(be); ok && v >= -1<<40 && v <= 1<<40 {
+					ints = append(ints, int(v))
+				}
+			}
 			lit, ok := n.(*ast.BasicLit)
 			if !ok || skip[lit] {
 				return true
@@ -178,7 +242,33 @@ func loadDict() {
 		})
 		return nil
 	})
-	for _, s := range uniqSortedStr(strs) {
+	var base dictBaseline
+	json.Unmarshal(dictBaselineJSON, &base)
+	baseS, baseI := map[string]bool{}, map[int]bool{}
+	for _, x := range base.Strings {
+		baseS[x] = true
+	}
+	for _, x := range base.Ints {
+		baseI[x] = true
+	}
+	dict.rawStrings, dict.rawInts = uniqSortedStr(strs), uniqSortedInt(ints)
+	addS := func(c *strClass, s string, novel bool) {
+		c.all = append(c.all, s)
+		if novel {
+			c.novel = append(c.novel, s)
+		}
+	}
+	addI := func(c *intClass, n int, novel bool) {
+		if len(c.all) > 0 && c.all[len(c.all)-1] == n {
+			return
+		}
+		c.all = append(c.all, n)
+		if novel {
+			c.novel = append(c.novel, n)
+		}
+	}
+	for _, s := range dict.rawStrings {
+		novel := len(base.Strings) > 0 && !baseS[s]
 		printable := true
 		for i := 0; i < len(s); i++ {
 			if s[i] < 0x20 && s[i] != '\t' || s[i] == 0x7f {
@@ -188,55 +278,99 @@ func loadDict() {
 		if !printable {
 			continue
 		}
-		dict.any = append(dict.any, s)
+		addS(&dict.any, s, novel)
 		switch {
 		case strings.Contains(s, "://") && !strings.ContainsAny(s, " %"):
-			dict.origins = append(dict.origins, s)
+			addS(&dict.origins, s, novel)
 		case isHostStr(s):
-			dict.hosts = append(dict.hosts, s)
+			addS(&dict.hosts, s, novel)
+		case len(s) > 2 && s[0] == '.' && isHostStr(s[1:]): // a domain suffix
+			addS(&dict.hosts, s[1:], novel)
 		}
 		if isSchemeStr(s) && len(s) >= 2 {
-			dict.schemes = append(dict.schemes, s)
+			addS(&dict.schemes, s, novel)
 		}
 		if isTokenStr(s) {
-			dict.tokens = append(dict.tokens, s)
+			addS(&dict.tokens, s, novel)
 		}
 	}
-	for _, v := range uniqSortedInt(ints) {
+	// n-1, n, n+1 for every mined n, in ascending order, novel if n is
+	var near []int
+	novelNear := map[int]bool{}
+	for _, v := range dict.rawInts {
 		for _, n := range []int{v - 1, v, v + 1} {
-			if n >= 1 && n <= 65535 {
-				dict.ports = append(dict.ports, n)
-			}
-			if n >= 200 && n <= 299 {
-				dict.status = append(dict.status, n)
-			}
-			if n >= -1 && n <= 86400 {
-				dict.maxAge = append(dict.maxAge, n)
-			}
-			if n >= 2 && n <= 600 {
-				dict.sizes = append(dict.sizes, n)
+			near = append(near, n)
+			if len(base.Ints) > 0 && !baseI[v] {
+				novelNear[n] = true
 			}
 		}
 	}
-	dict.ports, dict.status, dict.maxAge, dict.sizes = uniqSortedInt(dict.ports), uniqSortedInt(dict.status), uniqSortedInt(dict.maxAge), uniqSortedInt(dict.sizes)
+	for _, n := range uniqSortedInt(near) {
+		nv := novelNear[n]
+		if n >= 1 && n <= 65535 {
+			addI(&dict.ports, n, nv)
+		}
+		if n >= 200 && n <= 299 {
+			addI(&dict.status, n, nv)
+		} else if n >= -1000 && n <= 1000 {
+			addI(&dict.badStatus, n, nv)
+		}
+		if n >= -1 && n <= 86400 {
+			addI(&dict.maxAge, n, nv)
+		} else if n >= -1<<31 && n <= 1<<31 {
+			addI(&dict.badMaxAge, n, nv)
+		}
+		if n >= 2 && n <= 1200 {
+			addI(&dict.sizes, n, nv)
+		}
+	}
 }
 
-// dictStr returns, with probability p, an entry of xs (if there is one).
-func dictStr(r *R, xs []string, p float64) (string, bool) {
-	if len(xs) == 0 || !r.P(p) {
-		return "", false
+// foldInt evaluates an expression built from integer literals with + - * / << and parentheses.
+func foldInt(e ast.Expr) (int64, bool) {
+	switch x := e.(type) {
+	case *ast.BasicLit:
+		if x.Kind != token.INT {
+			return 0, false
+		}
+		v, err := strconv.ParseInt(strings.ReplaceAll(x.Value, "_", ""), 0, 64)
+		return v, err == nil
+	case *ast.ParenExpr:
+		return foldInt(x.X)
+	case *ast.UnaryExpr:
+		if v, ok := foldInt(x.X); ok && x.Op == token.SUB {
+			return -v, true
+		}
+	case *ast.BinaryExpr:
+		a, ok1 := foldInt(x.X)
+		b, ok2 := foldInt(x.Y)
+		if !ok1 || !ok2 || a > 1<<40 || a < -1<<40 || b > 1<<40 || b < -1<<40 {
+			return 0, false
+		}
+		switch x.Op {
+		case token.ADD:
+			return a + b, true
+		case token.SUB:
+			return a - b, true
+		case token.MUL:
+			if a != 0 && (b > 1<<20 || b < -1<<20) && (a > 1<<20 || a < -1<<20) {
+				return 0, false
+			}
+			return a * b, true
+		case token.QUO:
+			if b != 0 {
+				return a / b, true
+			}
+		case token.SHL:
+			if b >= 0 && b < 40 && a >= 0 && a < 1<<20 {
+				return a << uint(b), true
+			}
+		}
 	}
-	return xs[r.Intn(len(xs))], true
-}
-
-func dictInt(r *R, xs []int, p float64) (int, bool) {
-	if len(xs) == 0 || !r.P(p) {
-		return 0, false
-	}
-	return xs[r.Intn(len(xs))], true
+	return 0, false
 }
 
 func (d dictionary) summary() map[string]int {
-	return map[string]int{"files": d.files, "strings": len(d.any), "origins": len(d.origins), "hosts": len(d.hosts), "schemes": len(d.schemes), "tokens": len(d.tokens),
-		"ports": len(d.ports), "status": len(d.status), "max_age": len(d.maxAge), "sizes": len(d.sizes)}
+	return map[string]int{"files": d.files, "strings": len(d.any.all), "novel_strings": len(d.any.novel), "origins": len(d.origins.all), "hosts": len(d.hosts.all), "schemes": len(d.schemes.all), "tokens": len(d.tokens.all),
+		"ports": len(d.ports.all), "novel_ports": len(d.ports.novel), "status": len(d.status.all), "max_age": len(d.maxAge.all), "sizes": len(d.sizes.all), "out_of_range_max_age": len(d.badMaxAge.all), "out_of_range_status": len(d.badStatus.all)}
 }
